@@ -129,6 +129,26 @@ def gen_checks(tree):
     ], {})
     out.append(w.function(find_function(tree, "check_fence_as_directive"), "check_fence_as_directive_src", [("value", "jv")], CO))
     w.check_all_used()
+    # check_heading_slug_func: importlib is an oracle (e_import E <string>): ImpOk obj | ImportError |
+    # AttributeError | ValueError.  ImportError is not in the model's exception enum: an uncaught one is
+    # written Raise KeyError (it cannot occur: the handler catches it - @@CATCHES@@ checks that it still does).
+    w = validator(MAIN + ":check_heading_slug_func", {
+        "value is None": "(jv_is_none value)",
+        "isinstance(value, str)": "(is_str value)",
+        "callable(value)": "(is_callable value)",
+    }, [
+        ("module_path, function_name = value.rsplit('.', 1)",
+         "match (if mem_N c_dot (jv_str value) then Ok tt else Raise ValueError) with Raise __e => @@H@@ | Ok _ => @@K@@ end"),
+        ("mod = import_module(module_path)",
+         "match e_import E (jv_str value) with\n| ImpImportError => (if @@CATCHES:ImportError@@ then @@HANDLER@@ else Raise KeyError)\n"
+         "| ImpValueError => (let __e := ValueError in @@H@@)\n| _ => @@K@@ end"),
+        ("value = getattr(mod, function_name)",
+         "match e_import E (jv_str value) with\n| ImpAttributeError => (let __e := AttributeError in @@H@@)\n"
+         "| ImpOk __obj => let value := __obj in @@K@@\n| _ => @@K@@ end"),
+        ("setattr(inst, field.name, value)", "let __co := Some value in"),
+    ], {})
+    out.append(w.function(find_function(tree, "check_heading_slug_func"), "check_heading_slug_func_src", [("E", "env"), ("value", "jv")], CO))
+    w.check_all_used()
     # check_url_schemes
     w = validator(MAIN + ":check_url_schemes", {
         "isinstance(value, list | tuple)": "(isinst value [PyList; PyTuple])",
